@@ -257,6 +257,48 @@ pub fn limits() -> Vec<Limit> {
             expect: if d <= 8 { p(&["1"]) } else { Expect::Reject },
         });
     }
+    // operand sweep: functions whose code ends (before the implicit return) in an operand byte of
+    // every value 0..=255, in four operand roles — a byte of data must never be taken for an opcode
+    for b in 0usize..=255 {
+        if b >= 1 && b <= 254 {
+            // local slot b read as the last statement
+            let decls: String = (1..=b).map(|i| format!("var v{} = {};", i, i)).collect();
+            v.push(Limit {
+                name: format!("operand_local_slot_{}", b),
+                source: format!("fn f() {{ {} var y = v{}; }}\nprint(f());\nprint(\"end\");", decls, b),
+                expect: p(&["nil", "end"]),
+            });
+        }
+        // call with b arguments as the last statement's initialiser
+        v.push(Limit {
+            name: format!("operand_call_args_{}", b),
+            source: format!(
+                "fn g({}) {{ return 1; }}\nfn f() {{ var y = g({}); }}\nprint(f());\nprint(\"end\");",
+                names("a", b).join(","),
+                list(b, "7")
+            ),
+            expect: p(&["nil", "end"]),
+        });
+        // vec literal with b elements
+        v.push(Limit {
+            name: format!("operand_vec_elems_{}", b),
+            source: format!("fn f() {{ var y = [{}]; }}\nprint(f());\nprint(\"end\");", list(b, "1")),
+            expect: p(&["nil", "end"]),
+        });
+        if b <= 250 {
+            // captured variable number b read as the last statement of the inner function
+            let decls: String = (0..=b).map(|i| format!("var c{} = {};", i, i)).collect();
+            let uses: String = if b == 0 { String::new() } else { format!("var s = {};", (0..b).map(|i| format!("c{}", i)).collect::<Vec<_>>().join("+")) };
+            v.push(Limit {
+                name: format!("operand_upvalue_{}", b),
+                source: format!(
+                    "fn outer() {{ {} fn inner() {{ {} var y = c{}; }} return inner; }}\nprint(outer()());\nprint(\"end\");",
+                    decls, uses, b
+                ),
+                expect: p(&["nil", "end"]),
+            });
+        }
+    }
     v
 }
 
@@ -426,7 +468,7 @@ impl Property for C04 {
     }
 
     fn rule(&self) -> String {
-        "cases: (limits, exhaustive) one parameterised program per encoding limit at limit-1, limit, limit+1 (+2): forward jump distance for if/else/&&/||/while/try/break at 65534..65537 bytes with byte-exact filler, backward loop distance, call/method arguments, parameters (fn and lambda), vec/tuple/map elements and interpolation parts at 254..257, locals at 254..257, captured variables at 255..258, constants per chunk at 65535..65537, interpolation depth 7..9; (scripts) every script of the repository's corpus that compiles; (programs*) generated programs of the mixed/class/scope profiles, with and without recorded-defect shapes. Oracle: the bytecode verifier (abstract interpretation over every function: instruction boundaries, operand indices, one operand-stack height and one static handler stack per reachable pc, no pop below the frame base, final Return, line table length), the verifier's heights cross-checked against the interpreter's (chunk, pc, height) trace of the same run, no panic while running, and for the limit family the output or rejection known by construction. Non-trivial: a verified function with >=1 branch and height above its arity, or any limit instance; distinct by program text.".into()
+        "cases: (limits, exhaustive) one parameterised program per encoding limit at limit-1, limit, limit+1 (+2): forward jump distance for if/else/&&/||/while/try/break at 65534..65537 bytes with byte-exact filler, backward loop distance, call/method arguments, parameters (fn and lambda), vec/tuple/map elements and interpolation parts at 254..257, locals at 254..257, captured variables at 255..258, constants per chunk at 65535..65537, interpolation depth 7..9; operand sweep: functions whose code ends in an operand byte of every value 0..255 as local slot, argument count, element count and captured-variable index; (scripts) every script of the repository's corpus that compiles; (programs*) generated programs of the mixed/class/scope profiles, with and without recorded-defect shapes. Oracle: the bytecode verifier (abstract interpretation over every function: instruction boundaries, operand indices, one operand-stack height and one static handler stack per reachable pc, no pop below the frame base, final Return, line table length), the verifier's heights cross-checked against the interpreter's (chunk, pc, height) trace of the same run, no panic while running, and for the limit family the output or rejection known by construction. Non-trivial: a verified function with >=1 branch and height above its arity, or any limit instance; distinct by program text.".into()
     }
 
     fn assumptions(&self) -> Vec<String> {
